@@ -77,13 +77,13 @@ CHECKS = {
    text="Partial. Theorems: the parenthesis rule preserves the semantic tree on every layout path and its output re-parses to it; string and number rewriting preserve denotations; the erasure ignores exactly whitespace, comments, parentheses, semicolons, commas. "
         "Validation: erased token sequence (Coq lexer + denotations) and an AST normal form independent of --verify compared between input and output on generated programs x configurations x ranges. "
         "L0 (Fmt0.v): a whole-formatter model on a fragment of Lua 5.1 (every statement kind but goto/labels; expressions without function bodies and long strings; escapes, all quote styles, statement-level line comments and empty lines; call sugar; tables written over several lines (nested indentation inside expressions) with comments and empty lines between their fields; the whitespace, quote, call_parentheses, space_after_function_names and collapse_simple_statement options), tied to the binary byte for byte on every run (svh l0 x drv_l0). On L0: the output has the erased token sequence of the program and every expression keeps its grouping (format0_keeps_erasure, nexp_keeps_grouping); the regenerated semicolon rule equals its specification.",
-   design="5/C02", technique="Coq proof on the meaning-changing kernels + erasure / normal-form comparison judged by extracted functions + L0 whole-formatter model (byte-for-byte tie) + regenerated semicolon rule",
+   design="5/C02", technique="Coq proof on the meaning-changing kernels + erasure / normal-form comparison judged by extracted functions + L0 whole-formatter model (byte-for-byte tie) + regenerated semicolon rule and collapse rule",
    note=BASE_NOTE + "Regions as for C01 (known finding F-C02-baseline)."),
  "C03": dict(
    text="Partial. Theorems: load_token_trivia (leading and trailing modes) keeps every comment exactly once with only the allowed normalisation, terminates every leading comment with a newline; the census sees comments only. "
         "Tie: every traced call of the real function is replayed through the model. Validation: comment census of input vs output on generated programs x configurations x ranges x sort. "
         "L0 (Fmt0.v): a whole-formatter model on a fragment of Lua 5.1 (every statement kind but goto/labels; expressions without function bodies and long strings; escapes, all quote styles, statement-level line comments and empty lines; call sugar; tables written over several lines (nested indentation inside expressions) with comments and empty lines between their fields; the whitespace, quote, call_parentheses, space_after_function_names and collapse_simple_statement options), tied to the binary byte for byte on every run (svh l0 x drv_l0). On L0: the comments of the output are exactly those of the program, each once, in order (format0_comments_exact).",
-   design="5/C03", technique="Coq proof of the comment gate + replay of traced calls + census comparison + L0 whole-formatter model (byte-for-byte tie)",
+   design="5/C03", technique="Coq proof of the comment gate + replay of traced calls + census comparison + L0 whole-formatter model (byte-for-byte tie) + regenerated if-guard test and collapse rule",
    note=BASE_NOTE + "About 150 other sites build trivia and are only validated. Regions as for C01 (known finding F-C03-baseline)."),
  "C06": dict(
    text="Partial. Theorems: every kernel that rewrites text or reorders is idempotent (quote rewrite, quote choice, newline conversion, comment trimming, require-group sorting). Whole-program idempotence is validated on a fixed regression set only "
